@@ -142,7 +142,10 @@ func gridValues() []cmpVal {
 	spell([]string{"-1", "-1.0", "-10e-1", "0-1", "1*-1"}, big.NewRat(-1, 1))
 	spell([]string{"0.5", ".5", "5e-1", "1/2", "0.50"}, big.NewRat(1, 2))
 	spell([]string{"-0.5", "-.5", "0-1/2"}, big.NewRat(-1, 2))
-	spell([]string{"10", "1e1", "10.0", "100e-1", "5*2"}, big.NewRat(10, 1))
+	spell([]string{"10", "1e1", "10.0", "100e-1", "5*2", "010", "0010"}, big.NewRat(10, 1))
+	spell([]string{"17", "017", "1.7e1", "0017"}, big.NewRat(17, 1))
+	spell([]string{"8", "08", "010-2"}, big.NewRat(8, 1))
+	spell([]string{"777", "0777", "00777.0"}, big.NewRat(777, 1))
 	spell([]string{"9", "9.0", "3*3"}, big.NewRat(9, 1))
 	spell([]string{"0.3", "0.1+0.2", "3e-1", "0.30"}, big.NewRat(3, 10))
 	spell([]string{"0.1", "1e-1", "0.10"}, big.NewRat(1, 10))
@@ -218,7 +221,16 @@ func TestC05Grid(t *testing.T) {
 func respell(t *rapid.T, d decOperand) (string, *big.Rat) {
 	exact := d.rat()
 	var s string
-	switch rapid.IntRange(0, 4).Draw(t, "spell") {
+	switch rapid.IntRange(0, 6).Draw(t, "spell") {
+	case 5, 6: // an integer written out in full with 1-3 leading zeros (no point, no exponent)
+		if d.Exp < 0 || d.Exp > 12 {
+			s = d.lit(0)
+			break
+		}
+		s = strings.Repeat("0", rapid.IntRange(1, 3).Draw(t, "lead0")) + d.Coef + strings.Repeat("0", d.Exp)
+		if d.Neg {
+			s = "(-" + s + ")"
+		}
 	case 0:
 		s = d.lit(0)
 	case 1:
@@ -241,7 +253,7 @@ func respell(t *rapid.T, d decOperand) (string, *big.Rat) {
 
 // TestC05Random: random decimals in random spellings, near neighbours, random byte strings.
 func TestC05Random(t *testing.T) {
-	run := h.Begin("C05", "random", "rapid: pairs of random decimals (C04 operand generator) each re-spelled at random (plain, exponent, shifted exponent, leading/trailing zeros, arithmetic identity), pairs that differ only in the last of 34 digits or are equal, pairs of random byte strings (shared prefixes, invalid UTF-8), pairs of strings that look like timestamps / numbers / keywords (equal, extended by one character, unrelated); same oracle as the grid; non-trivial as in the grid; distinct by the pair of texts")
+	run := h.Begin("C05", "random", "rapid: pairs of random decimals (C04 operand generator) each re-spelled at random (plain, exponent, shifted exponent, leading/trailing zeros, integers written out with leading zeros, arithmetic identity), pairs that differ only in the last of 34 digits or are equal, pairs of random byte strings (shared prefixes, invalid UTF-8), pairs of strings that look like timestamps / numbers / keywords (equal, extended by one character, unrelated); same oracle as the grid; non-trivial as in the grid; distinct by the pair of texts")
 	defer run.End(t)
 	h.RapidSetup(h.N(8000, 3000000), "c05rand")
 	rapid.Check(t, func(rt *rapid.T) {
